@@ -61,7 +61,7 @@ type Replay struct {
 	Minimised  bool       `json:"minimised"`
 	Sig        string     `json:"schedule_signature,omitempty"`
 	Native     bool       `json:"native_fallback,omitempty"` // observed under real goroutine scheduling: replay is statistical
-	SimsFirst  bool       `json:"sims_first,omitempty"` // the simulated run came before the sequential reference in its process (first uses happen inside tasks)
+	SimsFirst  bool       `json:"sims_first,omitempty"`      // the simulated run came before the sequential reference in its process (first uses happen inside tasks)
 	Alone      *AloneCase `json:"alone_case,omitempty"`
 	Trace      []string   `json:"trace,omitempty"`
 	Note       string     `json:"note,omitempty"`
@@ -148,9 +148,22 @@ type WorkerResult struct {
 }
 
 func prepareAll(w *Workload) (prep [][]*Prepared, warm []*Prepared) {
+	bySpec := map[string]*Prepared{}
 	for _, ops := range w.Tasks {
 		var ps []*Prepared
 		for _, o := range ops {
+			if w.SharedInputs {
+				b, _ := json.Marshal(o)
+				if p, ok := bySpec[string(b)]; ok {
+					p.Shared = true
+					ps = append(ps, p)
+					continue
+				}
+				p := prepare(o)
+				bySpec[string(b)] = p
+				ps = append(ps, p)
+				continue
+			}
 			ps = append(ps, prepare(o))
 		}
 		prep = append(prep, ps)
@@ -426,6 +439,8 @@ func runWorker(master uint64, worker, workers, scheds, maxProgs int, budget floa
 					res.Violations = append(res.Violations, rp)
 				} else {
 					st.Probes["sequential_anomaly_not_reproduced_in_fresh_process"]++
+					wj, _ := json.Marshal(w)
+					fmt.Fprintf(os.Stderr, "sequential anomaly not reproduced in a fresh process: workload %d %s\n  %s\n  %s\n", idx, wj, v.OpSpec, strings.ReplaceAll(truncate(v.Detail, 1500), "\n", "\n  "))
 				}
 			}
 			// races seen by the simulated runs of this workload are reported all the same
@@ -503,6 +518,7 @@ func runWorker(master uint64, worker, workers, scheds, maxProgs int, budget floa
 							Violation: v, FindingKey: v.Key(), Minimised: true, Alone: c, Note: "found by the fresh-process alone probe"})
 					} else {
 						st.Probes["sequential_anomaly_not_reproduced_in_fresh_process"]++
+						fmt.Fprintf(os.Stderr, "alone probe anomaly not reproduced: workload %d codec %s target %s %s: fresh process %s, here %s, with the recent calls as prelude %s (%v)\n", idx, w.Codec, target.String(), func() string { b, _ := json.Marshal(target); return string(b) }(), fresh, here, got, err)
 					}
 				}
 			}
@@ -606,6 +622,9 @@ func runWorker(master uint64, worker, workers, scheds, maxProgs int, budget floa
 		}
 	}
 done:
+	if dynNative != "" {
+		st.Probes["dynamic_native_fallback"] = 1
+	}
 	for s := range sigs {
 		res.Sigs = append(res.Sigs, s)
 	}
